@@ -156,6 +156,7 @@ func runC10(p *load.Program, r *oblig.Report) {
 	c10GoroutineResults(p, r)
 	c10ClosedBatch(p, r)
 	c10StatsOnce(p, r)
+	shareRules(r, "C10", "C10.R12 the published partition list is never written again (C13.R7)", func(sub *oblig.Report) { c13Cache(p, sub) })
 	// batch.err is not guarded by a lock: it is published by the close of batch.done (store before close, loads after
 	// the receive), which is C01.R2
 	shareRules(r, "C10", "C10.R7 a batch result is handed over through the close of its done channel", func(sub *oblig.Report) { c01WaitBeforeRead(p, sub) })
